@@ -65,7 +65,9 @@ PROP = "C46"
 RULE = ("case = (frame seed, rows, index kind, NaN density, partitioning description, optional row filter, "
         "Series/DataFrame target, operation description); complete sub-space first: all 128 compositions of a fixed "
         "8-row frame (fixed NaN pattern) x {rolling(3).sum, cumsum, cummax, shift(1), shift(-2), diff, ffill(limit=1), "
-        "bfill}; non-trivial = >= 2 partitions and a compared result; distinct = distinct case descriptions")
+        "bfill}; then a seed-independent grid for the cumulative family (2 fixed frames x 17 partitionings incl. empty "
+        "partitions x 6 Series/DataFrame targets x cumsum/cumprod/cummin/cummax x skipna), then seeded random "
+        "cases; non-trivial = >= 2 partitions on a non-empty frame; distinct = distinct case descriptions")
 ASSUMPTIONS = [
     "pandas on the unpartitioned frame is the reference",
     "dask.dataframe is imported through the pyarrow import stub (pandas-backed strings); sync scheduler",
